@@ -72,7 +72,7 @@ theorem race_free_iff_disciplined (T : Table) : RaceFree T ↔ ∀ f, FieldOK T 
     `boot()` hands to `std::thread` (the only thread creation in the library) -/
 theorem table_roles_resolved :
     table.rootsPresent .controller = true ∧ table.rootsPresent .filter = true ∧
-    table.spawns = [(name% "FilteringAlgorithm::boot", name% "FilteringAlgorithm::filtering_recursion")] :=
+    table.spawns = [spawnSite] :=
   ⟨roots_present.1, roots_present.2, spawn_root⟩
 
 /-- the reachable sets used by the decision procedure are exactly call-graph reachability -/
@@ -85,7 +85,7 @@ theorem table_reach_certified (r : Role) (m : Nat) :
 /-- **must hold**: every data member of `FilteringAlgorithm` (run_, reset_, teardown_,
     filtering_step_, the mutex, the condition variable, the thread handle) obeys the discipline -/
 theorem table_disciplined_lifecycle :
-    ∀ f ∈ table.fieldsOfClass (name% "FilteringAlgorithm"), FieldOK table f := by
+    ∀ f ∈ table.fieldsOfClass lifecycleClass, FieldOK table f := by
   intro f hf
   apply Classical.byContradiction
   intro h
@@ -106,7 +106,7 @@ theorem table_undisciplined_exact (f : Nat) : ¬ FieldOK table f ↔ f ∈ claim
 
 /-- no interleaving races on a member of `FilteringAlgorithm` -/
 theorem race_free_lifecycle {tr : List Ev} (hwf : WF tr) (hc : Conforms table tr) :
-    ∀ f ∈ table.fieldsOfClass (name% "FilteringAlgorithm"), ¬ RaceOnField f tr :=
+    ∀ f ∈ table.fieldsOfClass lifecycleClass, ¬ RaceOnField f tr :=
   fun f hf => Race.lockset_sound table f (table_disciplined_lifecycle f hf) hwf hc
 
 /-- `race_free`, partial: any race of any interleaving is on one of the six skip flags -/
